@@ -417,8 +417,9 @@ def plan(tier):
 def describe(results, agg):
     return {
         "rule": "a run = one history of 4-25 operations over 1-4 generated base calls (11 op families) in which seeded subsets of the tensor arguments are instrumented factories of "
-                "7 signature classes; operation kinds: exec, repeat with fresh factory objects and data (cache hit), graph=True, under-determined (only factories, no sizes), corrupted "
-                "description; every third run injects raising / wrong-type / wrong-shape factories; cache size -1/0/1/2 per group. distinct_nontrivial = distinct (op, factory positions, "
+                "10 signature classes (positional, name=, keyword-only, **kwargs, callable object, functools.partial, numpy builtin, array-valued default, positional-only / var-positional "
+                "parameters merely named like the optional keywords); run-unique axis names; operation kinds: exec, repeat with fresh factory objects and data (cache hit), graph=True, under-determined (only factories, no sizes), corrupted "
+                "description; every third run injects raising / wrong-type (list, None, scalar, duck-typed object with matching .shape, memoryview, numpy scalar) / wrong-shape factories; cache size -1/0/1/2 per group. distinct_nontrivial = distinct (op, factory positions, "
                 "signature classes, cache state, fault kind, operation kind) tuples judged",
         "logical_steps": agg["stats"].get("ops", 0),
         "scope_note": "the history / fault clauses (exactly-once across cold, cached, evicted, graph=True and rejected calls; misbehaving factory) are decided per history; the quantification over descriptions is sampled by the generator",
